@@ -366,12 +366,6 @@ func (this *Dataset) Search(ctx context.Context, query math.Vector, k uint) (ind
 		go this.searchPartitionsOnNode(ctx, nodeId, partitionIds, query, k, wg, resultCh, errorCh)
 	}
 
-	go func() {
-		wg.Wait()
-		close(resultCh)
-		close(errorCh)
-	}()
-
 	result := make(index.SearchResult, 0, int(k)*len(nodePartitions))
 	for i := 0; i < len(nodePartitions); i++ {
 		select {
@@ -409,12 +403,6 @@ func (this *Dataset) SearchPartitions(ctx context.Context, partitionIds []uuid.U
 		wg.Add(1)
 		go this.searchPartition(ctx, partition, query, k, wg, resultCh, errorCh)
 	}
-
-	go func() {
-		wg.Wait()
-		close(resultCh)
-		close(errorCh)
-	}()
 
 	result := make(index.SearchResult, 0, int(k)*len(partitions))
 	for i := 0; i < len(partitions); i++ {
